@@ -22,8 +22,8 @@ class Layer:
         classes = [self.clss[i] for i in model["order"]]
         kwargs = {}
         if model.get("extras"):
-            classes = classes + [self.mod.Vec, self.mod.Label, self.mod.Title]
-            kwargs = dict(alternative_mappings=[self.mod.VecMapping, self.mod.LabelMapping],
+            classes = classes + [self.mod.Vec, self.mod.Label, self.mod.Title, self.mod.Track]
+            kwargs = dict(alternative_mappings=[self.mod.VecMapping, self.mod.LabelMapping, self.mod.TrackMapping],
                           type_mappings={self.mod.Money: self.mod.MoneyType})
         orm = ORMatic(ClassDiagram(classes), **kwargs)
         orm.make_all_tables()
@@ -33,7 +33,7 @@ class Layer:
         self.gen.Base.registry.configure()
 
     def dao_class(self, cls):
-        name = {"Vec": "VecMapping", "Label": "LabelMapping"}.get(cls.__name__, cls.__name__) + "DAO"
+        name = {"Vec": "VecMapping", "Label": "LabelMapping", "Track": "TrackMapping"}.get(cls.__name__, cls.__name__) + "DAO"
         return getattr(self.gen, name)
 
     def close(self):
